@@ -381,7 +381,9 @@ def make_spec(rng, L, kind, st, base, frames_job=False):
         coord = [rng.uniform(-3e3, 3e3) for _ in range(3)] + [rng.uniform(-3, 3) for _ in range(3)]
         mans = []
         for _ in range(rng.choice([0, 0, 1, 2])):
-            mans.append({"t_us": rng.randrange(-3600 * US, 3600 * US), "dv": [rng.uniform(-0.5, 0.5) for _ in range(3)]})
+            # one maneuver in five is dated exactly at the epoch ("burn now")
+            t_us = 0 if rng.random() < 0.2 else rng.randrange(-3600 * US, 3600 * US)
+            mans.append({"t_us": t_us, "dv": [rng.uniform(-0.5, 0.5) for _ in range(3)]})
         mans.sort(key=lambda m: m["t_us"])
         spec.update(orientation=orient, sma=sma, coord=coord, mans=mans)
         return spec
